@@ -234,10 +234,20 @@ def replace_dict(s, pairs, count=-1):
     with corresponding replacements' values.  If count is specified, only the
     first count occurrences of every key are replaced.'  The three docstring
     examples ({abc=>xx, ab=>yy} -> "xx yy xx", {ab=>yy, abc=>xx} -> "yyc yy
-    yyc", count 1 -> "yyc ab xx") fix the meaning: keys are applied one after
-    another in dictionary order.  `pairs` is the ordered list of (key, value)."""
+    yyc", count 1 -> "yyc ab xx") fix the meaning: the entries are applied one
+    after another in dictionary order.  `pairs` is the ordered list of the
+    dictionary's (key, value) entries.  Keys and values need not be strings
+    ("dict of replacements in format {old => new ...}", the library's own test
+    replaces {1 => y, 2 => false, null => '!'}): an entry stands for the string
+    representations (str_) of its key and its value, and every ENTRY of the
+    dictionary is applied - two different keys that are spelled alike (1 and
+    '1') are two entries.  A key or value without a documented string
+    representation, or one spelled as the empty string, is outside the domain."""
     for k, v in pairs:
-        r = replace(s, k, v, count)
+        old, new = str_(k), str_(v)
+        if old is None or new is None:
+            return None
+        r = replace(s, old[1], new[1], count)
         if r is None:
             return None
         s = r[1]
